@@ -146,6 +146,20 @@ func exploreHistory(h History, dir string, tier string, workers int, kind string
 		ex.Err = "record: " + err.Error()
 		return ex
 	}
+	if h.Mode == "bg" {
+		// A timer flush can fire while WriteCSM is still queueing the commands of a request and split them over
+		// two transaction groups; the schedule inference (one TG per request) then does not apply.  Such a run
+		// is recorded again (the timers decide; it is rare).
+		for try := 0; try < 3; try++ {
+			d0 := Decode(rec.Ops, "/", h.VrlOf, nil)
+			if _, serr := h.SchedBG(d0); serr == nil && len(d0.Errs) == 0 {
+				break
+			}
+			if r2, err2 := Record(&h, dir, false); err2 == nil {
+				rec = r2
+			}
+		}
+	}
 	ex.Ops, ex.Exit, ex.Pre = rec.Ops, rec.Exit, rec.Pre
 	root := filepath.Join(dir, "root")
 	if a, err := filepath.Abs(root); err == nil {
